@@ -225,16 +225,21 @@ PROPS = {
         not_decided=["strat_into_box (hash path) and agreement of the two paths", "exact normalised values"],
     ),
     "C19": dict(
-        level="model_checking",
-        technique="Kani harnesses on the real Strategies::distance (bounded game, bit-precise, powf modelled exactly for p in {1,2})",
-        level_text="Bounded (one 2-action infoset / a player without infosets; entries any f64 in [0,1]; p in {1,2}): never NaN, "
-                   "non-negative, zero for coinciding profiles, positive when they differ (p=1), panics for other games and for !(p>0); "
-                   "symmetry and the upper range on the grid {0,1/4,..,1} (full domain in the thorough tier). The upper bound 1 is a KNOWN "
-                   "FINDING (disjoint supports give 2).",
-        level_note="powf replaced by exact models x and x*x; p restricted to {1,2}.",
-        verus=[],
+        level="proof",
+        technique="Verus contract on the per-player closure of Strategies::distance extracted from /repo each run (formula, then symmetry / non-negativity / zero-iff-equal as lemmas over it) + Kani harnesses on the real function (bounded game, bit-precise, powf modelled exactly for p in {1,2}) for NaN-freedom and the two panics",
+        level_text="Deductive proof, idealised reals (any dense vector length, any number of infosets, any p > 0): each player's distance "
+                   "is (sum_i |l_i - r_i|^p) / #infosets, 0 for a player without multi-action infosets; hence symmetric, >= 0, and zero "
+                   "exactly when the two profiles coincide. Bounded and bit-precise (Kani: one 2-action infoset / a player without "
+                   "infosets; entries any f64 in [0,1]; p in {1,2}): never NaN, non-negative, zero for coinciding profiles, positive "
+                   "when they differ (p=1), panics for other games and for !(p>0); symmetry and the upper range on the grid "
+                   "{0,1/4,..,1}. The upper bound 1 is a KNOWN FINDING (disjoint supports give 2).",
+        level_note="Verus part: rounding/overflow/NaN not modelled, x^p an uninterpreted real function with two real-analysis axioms; the "
+                   "iterator chain around the closure is pinned textually. Kani part: powf replaced by exact models x and x*x; p restricted to {1,2}.",
+        verus=[U("c19_distance", ["C19.V.distance.formula", "C19.V.distance.symmetric", "C19.V.distance.nonneg", "C19.V.distance.zero_iff_equal"])],
         kani_functions=["src/lib.rs :: impl Strategies / fn distance"],
-        not_decided=["p outside {1,2}", "games with more infosets"],
+        trusted_base=["idealised-real float semantics (machine arithmetic treated as mathematical) where stated per unit",
+                      "std iterator adapters zip/map/collect and <[f64; 2]>::try_from around the per-player closure"],
+        not_decided=["bit-level NaN-freedom / range for p outside {1,2} and for games with more infosets", "Game::eq (pointer identity) beyond the two-game panic harnesses"],
     ),
 }
 
